@@ -133,6 +133,17 @@ func init() {
 				add(c12In{K: "fc", Lists: [][]uint64{one}, Views: vs, Ts: []uint64{10, 49, 50, 81, 97}})
 				add(c12In{K: "fc", Lists: [][]uint64{one}, Views: vs, Ts: []uint64{33, 65, 96, 200}})
 			}
+			// three and four lists with the minimum NOT in the first one: an earlier list stands on a larger entry X, a later one
+			// on Y with min < Y < X; targets between Y and X (a remembered runner-up that is not the runner-up; seed C12-17,
+			// which random lists stopped producing when the stream shifted) -- every order of the lists
+			for _, ls := range [][][]uint64{
+				{{50}, {10, 48}, {30, 44}}, {{10, 48}, {50}, {30, 44}}, {{30, 44}, {50}, {10, 48}}, {{50, 90}, {30, 44, 95}, {10, 48, 92}},
+				{{80}, {50, 70}, {10, 66}, {30, 60}}, {{16, 160}, {32, 96}, {8, 128}, {24, 64, 200}},
+			} {
+				for _, ts := range [][]uint64{{5, 40, 45, 49, 51}, {40, 47, 100}, {11, 31, 45}, {9, 25, 61, 65, 67, 129, 161}} {
+					add(c12In{K: "fc", Lists: ls, Ts: ts})
+				}
+			}
 			for k := 0; k < n; k++ {
 				span := uint64(pick(r, []int{6, 20, 100, 1000}))
 				if r.Chance(10) {
